@@ -21,13 +21,24 @@ for f in sorted(glob.glob('/verif/seeded/C*/meta.json')):
 txt = """
 ### 12.6 Seeded changes and which check catches them
 
-Three rounds of fresh sub-agents: m1/m2 against the tree with only the hooks; m3/m4 and m5/m6 (14 properties) against
-the tree with all repairs, each time told one-line summaries of the changes already known for the property so that they
-would pick other sites and mechanisms. Each agent saw only the property text and its own scratch worktree, never /verif.
+Four rounds of fresh sub-agents: m1/m2 against the tree with only the hooks; then, against the tree with all repairs,
+m3/m4 (20 properties), two more for 14 properties, and two more for all 20 (so 6 or 8 changes per property). From the
+second round on the agents were told one-line summaries of the changes already known for the property and asked for
+other sites, mechanisms and clauses. Each agent saw only the property text and its own scratch worktree, never /verif.
 Every change was confirmed there before it was kept (`seeded/_confirm/*.log`: repository suite 255 passed / 0 failed
-with the change, demonstration fails with it and passes without it; the four demonstrations that are scripts rather than
-Rust tests were run by hand). Seven m1/m2 patches had to be re-applied by hand after repairs touched the same lines
+with the change, demonstration fails with it and passes without it; demonstrations that are scripts rather than Rust
+tests were run by hand). Seven m1/m2 patches had to be re-applied by hand after repairs touched the same lines
 (`patch.orig.diff` is kept next to `patch.diff`).
+
+The last round is the most informative one about reach: 18 of its 40 changes were missed at the first attempt, each
+because the workload never drove the code concerned (no input beyond the size limits in C01, no debug-mode tokenizer
+and no input-deleting configuration in C03, no double array above 2^20 units and no key with more than 127 entries in
+C04, no command-line / Python build in C05, a constant description in C06, no split-result offsets in C08, no
+path-rewrite plugins and no non-empty output list in C09, per-token evaluation of malformed numerals in C15, no user
+dictionaries in C16, no path-based loader in C17, at most 16 threads in C18, no projection check on split results and no
+carriage return inside a line in C19, no cost check after path rewriting in C02). The workloads were extended (see the
+`notes` of each `seeded/<id>/meta.json`); all 40 are detected now. A monitor only decides what its workload reaches:
+the same will be true for changes nobody has seeded yet.
 
 Result of the sweeps (`lib/sweep_seeded.sh` applies to /repo and reverts; `lib/sweep_alt.sh` uses a scratch worktree
 through `VERIF_REPO`, so that long runs against /repo are not disturbed): **%d of %d are detected by the quick check of
